@@ -154,6 +154,27 @@ func TestWriteCorpus(t *testing.T) {
 		}
 		add("27-ffs2-volume-with-raw-file", "corpus:ffs-file", "TSRTS", rc)
 	}
+	// an unused entry in the middle of the table, followed by a never-written (erased) data partition
+	// that ends later than all earlier ones: the scan must skip the unused slot, not stop at it
+	{
+		rc := stdRecipe(4, 1, 0xff)
+		rc.me.entries = []fptEntry{
+			{name: "FTPR", offset: 0x400, length: 0x800},
+			{name: "BAD0", offset: 0, length: 0},
+			{name: "MFS\x00", offset: 0x1000, length: 0x1800, content: 1},
+		}
+		rc.me.count = 3
+		add("28-unused-entry-before-erased-last-partition", "corpus:unused-middle", "TSRTS", rc)
+		rc = stdRecipe(4, 1, 0xff)
+		rc.me.entries = []fptEntry{
+			{name: "BAD1", offset: 0xffffffff, length: 0x10},
+			{name: "FTPR", offset: 0x400, length: 0x800},
+			{raw: bytesOf(0xff, 32)},
+			{name: "FLOG", offset: 0xc00, length: 0x1500, content: 3},
+		}
+		rc.me.count = 4
+		add("29-unused-first-and-middle-partly-written-last", "corpus:unused-middle", "TS", rc)
+	}
 	os.MkdirAll(dir, 0o755)
 	for _, it := range items {
 		c := core.Case{Kind: it.kind, Op: it.ops, Args: map[string]string{"img": rleEncode(it.rc.build()), "pol0": "240"}}
